@@ -9,8 +9,8 @@ CONSTANTS
   MemoEncoded = FALSE
   MaxFrames = 3
   MaxHeap = 3
-  MaxMut = 2
-  MaxDistinct = 3
+  MaxMut = 1
+  MaxDistinct = 2
   MaxSends = 1
   Depth = 0
 VIEW MCView
